@@ -6,6 +6,7 @@ package main
 import (
 	"fmt"
 	"math/big"
+	"strconv"
 	"strings"
 )
 
@@ -15,6 +16,7 @@ type (
 	EIdent  struct{ Name string }
 	ELit    struct{ V *big.Int }
 	EBool   struct{ V bool }
+	EFloat  struct{ V float64 }
 	EStr    struct{ V string }
 	EUnary  struct {
 		Op string
@@ -74,6 +76,28 @@ func lex(s string) ([]tok, error) {
 			for j < len(s) && (s[j] >= '0' && s[j] <= '9' || s[j] >= 'a' && s[j] <= 'f' || s[j] >= 'A' && s[j] <= 'F' || s[j] == 'x' || s[j] == 'X' || s[j] == '_') {
 				// stop before ".." range operator (digits never contain '.')
 				j++
+			}
+			// fraction: digits '.' digit (not the range operator "..")
+			if j+1 < len(s) && s[j] == '.' && s[j+1] >= '0' && s[j+1] <= '9' && !strings.ContainsAny(s[i:j], "xX") {
+				j++
+				for j < len(s) && s[j] >= '0' && s[j] <= '9' {
+					j++
+				}
+				if j < len(s) && (s[j] == 'e' || s[j] == 'E') {
+					k := j + 1
+					if k < len(s) && (s[k] == '+' || s[k] == '-') {
+						k++
+					}
+					if k < len(s) && s[k] >= '0' && s[k] <= '9' {
+						for k < len(s) && s[k] >= '0' && s[k] <= '9' {
+							k++
+						}
+						j = k
+					}
+				}
+				out = append(out, tok{"float", s[i:j]})
+				i = j
+				continue
 			}
 			out = append(out, tok{"num", s[i:j]})
 			i = j
@@ -244,6 +268,12 @@ func (p *cparser) primary() Expr {
 			p.errf("bad number %q", t.s)
 		}
 		return ELit{v}
+	case "float":
+		f, err := strconv.ParseFloat(t.s, 64)
+		if err != nil {
+			p.errf("bad float %q", t.s)
+		}
+		return EFloat{f}
 	case "str":
 		return EStr{t.s}
 	case "id":
